@@ -90,6 +90,53 @@ theorem Kc_two_lt (c : Cfg ℂ) (hq : c.fq ≠ 0) (hpq : c.fp ≤ c.fq) : 2 * Kc
   have h4 : Kc c + 1 ≤ ((c.N / 2 : ℕ) : ℤ) := le_of_mul_le_mul_right h3 hqpos
   omega
 
+/-! ### cut-off form of the hypotheses (effective fractions)
+
+The library evaluates `frac·(N//2) − 1` in binary64, so the retained band can be one smaller than the
+rational one (e.g. `N = 49`, `frac = 2/3`: `14.999999999999998`, `K = 14` instead of `15`).  The
+harness drives the model with the effective fraction `(K+1)/(N/2)`; the main theorems are therefore
+stated with the cut-off hypotheses `3·Kc < N` / `4·Kc < N` (`…_of_cutoff`), and the lemmas below make
+the float case a corollary of the documented fractions. -/
+
+theorem two_Kc_lt_of_three (c : Cfg ℂ) (h3 : 3 * Kc c < (c.N : ℤ)) : 2 * Kc c < (c.N : ℤ) := by
+  rcases lt_or_ge (Kc c) 0 with hneg | hpos <;> omega
+
+theorem two_Kc_lt_of_four (c : Cfg ℂ) (h4 : 4 * Kc c < (c.N : ℤ)) : 2 * Kc c < (c.N : ℤ) := by
+  rcases lt_or_ge (Kc c) 0 with hneg | hpos <;> omega
+
+/-- monotonicity: a configuration on the same grid retaining no more modes inherits `3·Kc < N` -/
+theorem Kc_mono (c c' : Cfg ℂ) (hN : c'.N = c.N) (hle : Kc c' ≤ Kc c)
+    (h3 : 3 * Kc c < (c.N : ℤ)) : 3 * Kc c' < (c'.N : ℤ) := by
+  rw [hN]; omega
+
+/-- monotonicity: … and `4·Kc < N` -/
+theorem Kc_mono_four (c c' : Cfg ℂ) (hN : c'.N = c.N) (hle : Kc c' ≤ Kc c)
+    (h4 : 4 * Kc c < (c.N : ℤ)) : 4 * Kc c' < (c'.N : ℤ) := by
+  rw [hN]; omega
+
+/-- the effective fraction `(K+1)/(N/2)` retains exactly the wavenumbers `≤ K` -/
+theorem Kc_of_effective (c : Cfg ℂ) (K : ℕ) (hp : c.fp = K + 1) (hq : c.fq = c.N / 2)
+    (hN : 0 < c.N / 2) : Kc c = (K : ℤ) := by
+  unfold Kc
+  rw [hp, hq]
+  have hpos : ((c.N / 2 : ℕ) : ℤ) ≠ 0 := by exact_mod_cast hN.ne'
+  have : (((K + 1 : ℕ) : ℤ)) * ((c.N / 2 : ℕ) : ℤ) - ((c.N / 2 : ℕ) : ℤ)
+      = (K : ℤ) * ((c.N / 2 : ℕ) : ℤ) := by push_cast; ring
+  rw [this, Int.mul_ediv_cancel _ hpos]
+
+/-- the float-derived band of the 2/3 rule: an effective configuration whose `K` does not exceed the
+    rational `Kc` of the documented fraction 2/3 on the same grid satisfies `3·Kc < N` -/
+theorem Kc_effective_two_thirds (c' : Cfg ℂ) (K : ℕ) (hp : c'.fp = K + 1) (hq : c'.fq = c'.N / 2)
+    (hN : 0 < c'.N / 2) (hK : (K : ℤ) * 3 ≤ 2 * ((c'.N / 2 : ℕ) : ℤ) - 3) :
+    3 * Kc c' < (c'.N : ℤ) := by
+  rw [Kc_of_effective c' K hp hq hN]; omega
+
+/-- the float-derived band of the 1/2 rule -/
+theorem Kc_effective_half (c' : Cfg ℂ) (K : ℕ) (hp : c'.fp = K + 1) (hq : c'.fq = c'.N / 2)
+    (hN : 0 < c'.N / 2) (hK : (K : ℤ) * 2 ≤ ((c'.N / 2 : ℕ) : ℤ) - 2) :
+    4 * Kc c' < (c'.N : ℤ) := by
+  rw [Kc_of_effective c' K hp hq hN]; omega
+
 /-! ### A5 — the full DFT of `irfftnM 1 N c` for any stored half spectrum `c` -/
 
 /-- **A5 (what the c2r transform does).** For ANY array `c` of stored coefficients the full DFT of
